@@ -12,9 +12,9 @@ VERIF = api.VERIF
 PROP_MODULES = {
     "C01": ["contracts.c01", "contracts.c01b", "contracts.c01_bounded", "contracts.c15", "contracts.c18", "contracts.c02"],
     "C02": ["contracts.c02", "contracts.c02_bounded", "contracts.c15", "contracts.c12"],
-    "C03": ["contracts.c03", "contracts.c03_bounded", "contracts.c06", "contracts.c05c"],
-    "C04": ["contracts.c04", "contracts.c05", "contracts.c03"],
-    "C05": ["contracts.c05", "contracts.c05c", "contracts.c05_bounded", "contracts.c05_fields_bounded", "contracts.c06", "contracts.c15"],
+    "C03": ["contracts.c03", "contracts.c03_bounded", "contracts.c06", "contracts.c05c", "contracts.c18"],
+    "C04": ["contracts.c04", "contracts.c05", "contracts.c03", "contracts.c01"],
+    "C05": ["contracts.c05", "contracts.c05c", "contracts.c05_bounded", "contracts.c05_fields_bounded", "contracts.c06", "contracts.c15", "contracts.c01", "contracts.c04"],
     "C11": ["contracts.c11", "contracts.c09", "contracts.c11_bounded", "contracts.c02", "contracts.c06b"],
     "C19": ["contracts.c19", "contracts.c19b", "contracts.c19_bounded", "contracts.c02", "contracts.c15"],
     "C12": ["contracts.c12", "contracts.c12b", "contracts.c12c", "contracts.c12_bounded", "contracts.c10", "contracts.c13c"],
@@ -23,7 +23,7 @@ PROP_MODULES = {
     "C06": ["contracts.c06", "contracts.c06b", "contracts.c06_bounded"],
     "C07": ["contracts.c07", "contracts.c07_bounded", "contracts.c10", "contracts.c03", "contracts.c09"],
     "C08": ["contracts.c08", "contracts.c08b", "contracts.c15", "contracts.c12", "contracts.c15_bounded", "contracts.c13c"],
-    "C15": ["contracts.c15", "contracts.c13", "contracts.c08", "contracts.c08b", "contracts.c10", "contracts.c17", "contracts.c14", "contracts.c12", "contracts.c15_bounded"],
+    "C15": ["contracts.c15", "contracts.c13", "contracts.c08", "contracts.c08b", "contracts.c10", "contracts.c17", "contracts.c14", "contracts.c12", "contracts.c12b", "contracts.c12c", "contracts.c15_bounded"],
     "C16": ["contracts.c16", "contracts.c16_bounded", "contracts.c13c"],
     "C09": ["contracts.c09", "contracts.c09_bounded", "contracts.c08", "contracts.c10b", "contracts.c06b"],
     "C10": ["contracts.c10", "contracts.c10b", "contracts.c10_bounded", "contracts.c09"],
